@@ -23,7 +23,7 @@ ASSUMPTIONS = ['depth is counted from the frame variable (=1); the property boun
                'frozenset, exception args, instances with attribute dictionaries)',
                'the 100 ms processing-time budget is taken out of play by freezing the clock inside each event']
 REQUIRE = {'snapshots_measured': 150, 'bit_budget': 20, 'bit_string': 20, 'bit_collection': 20, 'bit_depth': 20,
-           'order_checked': 20}
+           'order_checked': 20, 'capture_snapshots': 20}
 
 
 default_limits = snapcheck.default_limits
@@ -31,7 +31,7 @@ default_limits = snapcheck.default_limits
 
 def plan(tier, seed):
     n = {'quick': 640, 'thorough': 9600}[tier]
-    return split_seeds('b%s' % seed, n, 16, 'bounds')
+    return split_seeds('b%s' % seed, n, 14, 'bounds') + split_seeds('k%s' % seed, n // 8, 2, 'capture')
 
 
 def big_value(r, kind, size):
@@ -172,6 +172,8 @@ def case_bounds(seed, out, spec, wd):
         else:
             size = r.pick([lim['max_coll'] - 1, lim['max_coll'], lim['max_coll'] + 1, lim['max_coll'] * 3 + 2,
                            lim['max_vars'] + 5, min(3000, lim['max_vars'] * 2 + 7)])
+            if k in ('wide_dict', 'wide_list', 'wide_set') and r.chance(0.25):
+                size = r.pick([5000, 9000])    # far more pending work than the budget will ever admit
         size = max(1, size)
         sizes.append(size)
         values[(idx + j) % nloc] = big_value(r, k, size)
@@ -312,6 +314,96 @@ def measure(snap, top, names, lim, probs, st):
             st['order'] = True
 
 
+CAP_HOST = '''"""c05 capture host"""
+
+
+def inner(n):
+    local = "inner-%d" % n  # @inner_line
+    return local
+
+
+def produce(n):
+    inner(n)
+    data = {"text": "z" * 90, "rows": [["cell-%d-%d" % (i, j) for j in range(12)] for i in range(12)],
+            "deep": [[[[["bottom"]]]]]}
+    return data
+'''
+
+
+def case_capture(seed, out, spec, wd):
+    """A deferred (method_capture) snapshot with its own limits, while another tracepoint with other limits collects
+    inside the invocation: the captured value must keep to the limits of the tracepoint it belongs to."""
+    import os
+    from vf import hostframe
+    from vf.rig import Rig
+    r = Rng('c05k', seed)
+    path = os.path.join(wd, 'c05cap.py')
+    if not os.path.exists(path):
+        with open(path, 'w') as f:
+            f.write(CAP_HOST)
+    base = os.path.basename(path)
+    marks = hostframe.markers(path)
+    mod = hostframe.load(path)
+    lim = {'max_vars': r.pick([30, 60, 200]), 'max_str': r.pick([8, 20, 40]), 'max_coll': r.pick([2, 3, 5]),
+           'max_depth': r.pick([4, 5])}
+    other = r.pick(['defaults', 'bigger', 'none'])
+    trigs = [direct_trigger('cap', base, None, 'Snapshot', {
+        'stage': 'method_capture', 'MAX_VARIABLES': lim['max_vars'], 'MAX_STRING_LENGTH': lim['max_str'],
+        'MAX_COLLECTION_SIZE': lim['max_coll'], 'MAX_VAR_DEPTH': lim['max_depth']}, function='produce')]
+    if other == 'defaults':
+        trigs.append(line_trigger('in', base, marks['inner_line'], {}, ['local']))
+    elif other == 'bigger':
+        trigs.append(direct_trigger('in', base, marks['inner_line'], 'Snapshot',
+                                    {'MAX_STRING_LENGTH': 500, 'MAX_COLLECTION_SIZE': 50, 'MAX_VAR_DEPTH': 9}))
+    rig = Rig(custom={}, host_dir=wd)
+    rig.install(trigs)
+    res, exc = rig.run(mod.produce, r.randrange(100))
+    snaps = [p.snapshot for p in rig.push.pushed if p.snapshot.tracepoint.id == 'cap']
+    rig.cleanup()
+    replay = replay_spec(spec, seed)
+    witness = {'capture_limits': lim, 'other_tracepoint_inside': other}
+    if exc is not None:
+        out.inconc('C05 capture host raised %r' % (exc,))
+        return
+    if len(snaps) != 1:
+        out.violation('presence:no-snapshot', 'method_capture due once, %d delivered' % len(snaps), witness, replay)
+        return
+    snap = snaps[0]
+    if not calibrated(wd):
+        out.inconc('per-action limit keys are not honoured (calibration); capture case skipped')
+        return
+    probs = snapcheck.Problems()
+    lookup = snap.var_lookup
+    if len(lookup) > lim['max_vars'] + 1:
+        probs.add('bounds:variable-count', 'table holds %d variables, maximum %d' % (len(lookup), lim['max_vars']))
+    for vid, v in lookup.items():
+        if isinstance(v.value, str) and len(v.value) > lim['max_str']:
+            probs.add('bounds:string-length', 'entry %s (%s) of the captured snapshot has %d characters, maximum %d' % (
+                vid, v.type, len(v.value), lim['max_str']))
+        if v.type in ('list', 'tuple', 'set', 'frozenset') and len(v.children) > lim['max_coll']:
+            probs.add('bounds:collection-size', 'entry %s (%s) of the captured snapshot has %d children, maximum %d' % (
+                vid, v.type, len(v.children), lim['max_coll']))
+    roots = [w.result.vid for w in snap.watches if w.result is not None and w.result.vid in lookup]
+    depth = {v_: 1 for v_ in roots}
+    cur, d = list(roots), 1
+    while cur:
+        nxt = []
+        for vid in cur:
+            for ch in lookup[vid].children:
+                if ch.vid in lookup and ch.vid not in depth:
+                    depth[ch.vid] = d + 1
+                    nxt.append(ch.vid)
+        cur, d = nxt, d + 1
+    if depth and max(depth.values()) > lim['max_depth']:
+        probs.add('bounds:depth', 'captured value nested %d levels, maximum depth %d' % (max(depth.values()),
+                                                                                       lim['max_depth']))
+    for mech, what in probs:
+        out.violation(mech, what, witness, replay)
+    out.count('capture_snapshots')
+    out.count('snapshots_measured')
+    out.case({'lim': lim, 'other': other}, nontrivial=True, sample=dict(witness, table=len(lookup)))
+
+
 def _int(s):
     try:
         return int(s)
@@ -323,6 +415,9 @@ def run_shard(spec, out):
     wd = Workdir('c05')
     try:
         for seed in spec_seeds(spec):
-            case_bounds(seed, out, spec, wd.path)
+            if spec['kind'] == 'capture':
+                case_capture(seed, out, spec, wd.path)
+            else:
+                case_bounds(seed, out, spec, wd.path)
     finally:
         wd.close()
